@@ -223,10 +223,119 @@ theorem SafeInv.step {c : RingCfg} (hc : c.keyCheck = true) {sys : RSys} (h : Sa
               rw [← h.len, List.take_length]
               exact hw
 
+/-! ### the same two local facts for the machine without the yield point inside `get` -/
+
+theorem stepOpRFused_eq (c : RingCfg) (rs : RStore) (op : Op) (pc : RPC) :
+    stepOpRFused c rs op pc = stepOpR c rs op pc ∨
+    ∃ s i, stepOpR c rs op pc = (s, .cont (.ringGetAfterIndex i)) ∧
+      stepOpRFused c rs op pc = stepOpR c s op (.ringGetAfterIndex i) := by
+  unfold stepOpRFused
+  split
+  · rename_i s i h
+    exact Or.inr ⟨s, i, h, rfl⟩
+  · exact Or.inl rfl
+
+theorem stepOpRFused_slots (c : RingCfg) (rs : RStore) (op : Op) (pc : RPC) :
+    ∀ e ∈ (stepOpRFused c rs op pc).1.ring.slots,
+      e ∈ rs.ring.slots ∨ e = none ∨ ∃ k v, e = some (k, v) ∧ (op = .put k v ∨ op = .putD k v) := by
+  intro e he
+  rcases stepOpRFused_eq c rs op pc with h | ⟨s, i, h1, h2⟩
+  · rw [h] at he; exact stepOpR_slots c rs op pc e he
+  · rw [h2] at he
+    rcases stepOpR_slots c s op (.ringGetAfterIndex i) e he with h | h | h
+    · have := stepOpR_slots c rs op pc e (by rw [h1]; exact h)
+      exact this
+    · exact Or.inr (Or.inl h)
+    · exact Or.inr (Or.inr h)
+
+theorem stepOpRFused_found (c : RingCfg) (hc : c.keyCheck = true) (rs : RStore) (pc : RPC) (k : Key) (v : Val)
+    (hk : k.cls = .cache) (h : (stepOpRFused c rs (.get k) pc).2 = .done (.found v)) :
+    some (k, v) ∈ rs.ring.slots := by
+  rcases stepOpRFused_eq c rs (.get k) pc with h' | ⟨s, i, h1, h2⟩
+  · rw [h'] at h; exact stepOpR_found c hc rs pc k v hk h
+  · rw [h2] at h
+    have hm := stepOpR_found c hc s (.ringGetAfterIndex i) k v hk h
+    rcases stepOpR_slots c rs (.get k) pc (some (k, v)) (by rw [h1]; exact hm) with h3 | h3 | ⟨k', v', _, h4⟩
+    · exact h3
+    · cases h3
+    · rcases h4 with h4 | h4 <;> cases h4
+
+theorem SafeInv.stepFused {c : RingCfg} (hc : c.keyCheck = true) {sys : RSys} (h : SafeInv sys) (t : Nat) :
+    SafeInv (stepRFused c sys t) := by
+  unfold stepRFused
+  split
+  · exact h
+  · rename_i th hth
+    split
+    · exact h
+    · rename_i op rest hops
+      split
+      · exact h
+      · have hS := stepOpRFused_slots c sys.store op th.pc
+        have hF : ∀ k v, op = .get k → k.cls = .cache →
+            (stepOpRFused c sys.store op th.pc).2 = .done (.found v) → some (k, v) ∈ sys.store.ring.slots := by
+          intro k v hop hk hr
+          subst hop
+          exact stepOpRFused_found c hc sys.store th.pc k v hk hr
+        generalize stepOpRFused c sys.store op th.pc = res at hS hF
+        obtain ⟨s', o⟩ := res
+        have hslots : ∀ k v, some (k, v) ∈ s'.ring.slots →
+            Written (sys.trace ++ [(t, op, th.pc)]) k v := by
+          intro k v hm
+          rcases hS _ hm with h1 | h1 | ⟨k', v', h1, h2⟩
+          · exact (h.slots k v h1).mono _
+          · cases h1
+          · cases h1
+            exact ⟨(t, op, th.pc), by simp, h2⟩
+        have htake : ∀ n, n ≤ sys.clock →
+            (sys.trace ++ [(t, op, th.pc)]).take n = sys.trace.take n := by
+          intro n hn
+          exact List.take_append_of_le_length (by rw [h.len]; exact hn)
+        cases o with
+        | cont pc' =>
+          dsimp only
+          constructor
+          · simp [h.len]
+          · exact hslots
+          · intro r hr; exact Nat.lt_succ_of_lt (h.rets r hr)
+          · intro r hr k v h1 h2 h3
+            dsimp only
+            rw [htake _ (Nat.le_of_lt (h.rets r hr))]
+            exact h.gets r hr k v h1 h2 h3
+        | done res =>
+          dsimp only
+          constructor
+          · simp [h.len]
+          · exact hslots
+          · intro r hr
+            simp only [List.mem_append, List.mem_singleton] at hr
+            rcases hr with hr | hr
+            · exact Nat.lt_succ_of_lt (h.rets r hr)
+            · subst hr; exact Nat.lt_succ_self _
+          · intro r hr k v h1 h2 h3
+            simp only [List.mem_append, List.mem_singleton] at hr
+            dsimp only
+            rcases hr with hr | hr
+            · rw [htake _ (Nat.le_of_lt (h.rets r hr))]
+              exact h.gets r hr k v h1 h2 h3
+            · subst hr
+              dsimp only at h1 h3 ⊢
+              rw [htake _ (Nat.le_refl _)]
+              have hm := hF k v h1 h2 (by simp [h3])
+              have hw := h.slots k v hm
+              rw [← h.len, List.take_length]
+              exact hw
+
 theorem SafeInv.run {c : RingCfg} (hc : c.keyCheck = true) {sys : RSys} (h : SafeInv sys)
     (sched : List Nat) : SafeInv (runFromR c sys sched) := by
   induction sched generalizing sys with
   | nil => exact h
   | cons t rest ih => exact ih (h.step hc t)
+
+theorem SafeInv.runFused {c : RingCfg} (hc : c.keyCheck = true) {sys : RSys} (h : SafeInv sys)
+    (sched : List Nat) : SafeInv (sched.foldl (stepRFused c) sys) := by
+  induction sched generalizing sys with
+  | nil => exact h
+  | cons t rest ih => exact ih (h.stepFused hc t)
 
 end Neumann.KV
